@@ -5,6 +5,8 @@ same tree for sources that differ only in how a comparison or a negated if/else 
     the right; otherwise the operand with the smaller source text goes to the left (the operator is mirrored);
   * `if not A: X else: Y` (with an else branch that is not an elif chain) is read as `if A: Y else: X`.
 
+  * `while True:` whose first statement is `if C: break` (no else) is read as `while not C:`.
+
 Positions are kept, so reports still point at the right line."""
 import ast
 
@@ -36,6 +38,18 @@ class _Canon(ast.NodeTransformer):
         t = node.test
         if isinstance(t, ast.UnaryOp) and isinstance(t.op, ast.Not) and node.orelse and not (len(node.orelse) == 1 and isinstance(node.orelse[0], ast.If)):
             return ast.copy_location(ast.If(test=t.operand, body=node.orelse, orelse=node.body), node)
+        return node
+
+
+    def visit_While(self, node):
+        self.generic_visit(node)
+        if isinstance(node.test, ast.Constant) and node.test.value is True and not node.orelse and len(node.body) >= 2:
+            f = node.body[0]
+            if isinstance(f, ast.If) and not f.orelse and len(f.body) == 1 and isinstance(f.body[0], ast.Break):
+                t = f.test
+                nt = t.operand if isinstance(t, ast.UnaryOp) and isinstance(t.op, ast.Not) else ast.UnaryOp(op=ast.Not(), operand=t)
+                ast.copy_location(nt, t)
+                return ast.copy_location(ast.While(test=nt, body=node.body[1:], orelse=[]), node)
         return node
 
 
